@@ -23,7 +23,6 @@ used to serialize Fiddle structures into a custom JSON-based representation
 
 import abc
 import collections
-import copy
 import dataclasses
 import enum
 import functools
@@ -69,7 +68,11 @@ def clear_argument_history(buildable: config_lib.Buildable):
                                                     metadata)
       return state.map_children(value)
     else:
-      return copy.deepcopy(value)
+      # Leaves are carried over as they are, as in every other transformation
+      # of a configuration: a deep copy would hand the configured callables
+      # other objects (a sentinel compared by identity stops matching, leaves
+      # that refer to one shared object get a copy of it each).
+      return value
 
   return daglish.MemoizedTraversal.run(traverse, buildable)
 
